@@ -1,8 +1,96 @@
-"""C02 — compiling any source text is safe and leaves the compiler reusable (DESIGN §3 C02)."""
+"""C02 — compiling any source text is safe and leaves the compiler reusable (DESIGN §3 C02).
+
+vx --enum over inputs; every input is compiled by the real compile_file() in a forked child of the booted driver
+(source read through a file descriptor, as load_object() does; the byte part also through the pre_text path).
+Per input: compile returns (per-input timeout, re-run alone x20 before it is a hang); prog != 0 or num_parse_error > 0;
+no sanitizer report; no exit; canonical residual state of the compiler == fresh-driver state s0; and the fixed
+probe program compiled right after the input dumps (h/progdump.c, address independent) to the fresh-driver dump.
+"""
+import time
 import vlib
 LEVEL = "exploration"
 SRC = ["h/h_c02.c", "h/h_c02_sweep.c", "h/progdump.c", "wrap/w_c02_compiler.c", "wrap/w_c02_lex.c", "wrap/w_c02_ident.c", "wrap/w_c02_scratch.c",
        "wrap/w_c02_icode.c", "wrap/w_c02_ptrees.c", "wrap/w_c02_generate.c"]
 
+
 def build(ck):
     return {"h_c02": ck.harness("h_c02", SRC, wraps=vlib.STD_WRAPS + ["smart_log"])}
+
+
+RULE = ("every input of: (bytes) all byte strings of length <= 2 over all 256 values, through a file descriptor and through pre_text; "
+        "(class) all strings of length 3..L over a 45-symbol class alphabet with one representative per arm of the lexer's character switches "
+        "(letter, L, x, e, _, 0, 1, 9, blank, tab, newline, CR, every punctuator, quote, apostrophe, backslash, #, $, @, NUL, 0x80, 0xFF); "
+        "(tok) all token strings of length <= n over the 26-token alphabet {int string mixed x f ( ) { } ; , = 1 \"s\" return (: :) [ ] .. #define-x #if #endif "
+        "#include-a.h @TXT-block newline}, bare and inside a fixed well-formed prologue/epilogue; "
+        "(edit) every single-token deletion, duplication and substitution by each of the 26 tokens at every position of a corpus of 40 valid programs "
+        "that together use every grammar production; (sweep) generated programs crossing every bounded table by limit-2..limit+2: locals/arguments per "
+        "function, locals in sequential blocks/for/foreach, nested function literals (k outer x m x n locals, as locals / arguments / mixed, nesting 1..11: the full "
+        "0..7 grid with MaxLocalVariables 6, the boundary planes at the default 25), strings, functions, globals, inherits, classes, class members, switch cases "
+        "(direct / sparse / range / string / default encodings), include depth, #if depth, macro expansions (EXPANDMAX), line length around MAXLINE and "
+        "NSIZE (12 line kinds), nesting depth of 10 constructs around YYINITDEPTH/YYMAXDEPTH, 84 numeric/character literals in 3 contexts, total code size "
+        "around 32768 and 65536 bytes in 5 placements, 253..259 overridden inherited functions; (hist) all ordered tuples over 25 state-leaving "
+        "candidates loaded with load_object() as genuine histories, each step compared with its fresh-driver outcome. "
+        "Oracle after every input: terminates; program or >= 1 compile error; no sanitizer report; no exit; residual compiler state == s0; probe dump == fresh dump")
+
+ASSUMPTIONS = [
+    "the residual state covers the statics of compiler.c, lex.c/preprocess.c, identifier.c, scratchpad.c, icode.c, parse_trees.c, generate.c, grammar's "
+    "context and simulate's inherit_file; compile_file()'s function-local 'guard' and the malloc arena are not readable and are covered only by the probe differential",
+    "capacities that only grow (locals_size, type_of_locals_size) are compared as >= fresh value; sem_value counters are compared exactly",
+    "an input that leaves a detected leftover ends its child (vx_enum_restart) so that later inputs of the batch are judged from the fresh state",
+    "hang = no return within the per-input timeout and again within 20x when re-run alone",
+    "token = whitespace-separated lexeme, string/char literal, text block, newline, or a whole # directive line (corpus edits)",
+]
+
+
+def _left(ck, budget):
+    return max(60, int(budget - (time.time() - ck.t0)))
+
+
+def run(ck):
+    exe = build(ck)["h_c02"]
+    quick = ck.tier == "quick"
+    budget = 215 if quick else 2250          # seconds for the enumeration parts (build and replays come on top)
+    J = 16
+    if quick:
+        ck.enum(exe, ["--part=bytes2"], "bytes2", batch=400, deadline_s=_left(ck, budget), timeout_ms=10000, jobs=J)
+        ck.enum(exe, ["--part=class", "--class-len=3"], "class3", batch=400, deadline_s=_left(ck, budget), timeout_ms=10000, jobs=J)
+        ck.enum(exe, ["--part=sweep", "--maxlocals=6"], "sweep-locals6", batch=150, deadline_s=_left(ck, budget), timeout_ms=20000, jobs=J)
+        ck.enum(exe, ["--part=sweep"], "sweep", batch=100, deadline_s=_left(ck, budget), timeout_ms=20000, jobs=J)
+        ck.enum(exe, ["--part=hist", "--hist-len=2"], "hist2", batch=25, deadline_s=_left(ck, budget), timeout_ms=20000, jobs=J)
+        ck.enum(exe, ["--part=tok", "--tok-len=3"], "tok3", batch=400, deadline_s=_left(ck, budget), timeout_ms=10000, jobs=J)
+        ck.enum(exe, ["--part=edit", "--edit-subst-progs=12"], "edit-d40-s12", batch=300, deadline_s=_left(ck, budget), timeout_ms=10000, jobs=J)
+        # largest bound last: completes if time allows, otherwise reports how far it got (exhaustive:false for this part only)
+        ck.enum(exe, ["--part=tok", "--tok-len=4", "--tok-min=4"], "tok4", batch=500, deadline_s=_left(ck, budget), timeout_ms=10000, jobs=J)
+    else:
+        ck.enum(exe, ["--part=bytes2"], "bytes2", batch=400, deadline_s=_left(ck, budget), timeout_ms=10000, jobs=J)
+        ck.enum(exe, ["--part=sweep", "--maxlocals=6"], "sweep-locals6", batch=150, deadline_s=_left(ck, budget), timeout_ms=20000, jobs=J)
+        ck.enum(exe, ["--part=sweep", "--thorough=1"], "sweep", batch=60, deadline_s=_left(ck, budget), timeout_ms=60000, jobs=J)
+        ck.enum(exe, ["--part=hist", "--hist-len=3"], "hist3", batch=25, deadline_s=_left(ck, budget), timeout_ms=20000, jobs=J)
+        ck.enum(exe, ["--part=edit"], "edit", batch=300, deadline_s=_left(ck, budget), timeout_ms=10000, jobs=J)
+        ck.enum(exe, ["--part=tok", "--tok-len=4"], "tok4", batch=500, deadline_s=_left(ck, budget), timeout_ms=10000, jobs=J)
+        ck.enum(exe, ["--part=class", "--class-len=3"], "class3", batch=400, deadline_s=_left(ck, budget), timeout_ms=10000, jobs=J)
+        ck.enum(exe, ["--part=class", "--class-len=4", "--class-min=4"], "class4", batch=600, deadline_s=min(_left(ck, budget), 900), timeout_ms=10000, jobs=J)
+        ck.enum(exe, ["--part=tok", "--tok-len=5", "--tok-min=5"], "tok5", batch=600, deadline_s=_left(ck, budget), timeout_ms=10000, jobs=J)
+    done = {p["part"]: (p.get("evaluations"), p.get("total"), p.get("exhaustive")) for p in ck.parts}
+    ck.finish(vlib.enum_coverage(ck.parts, RULE, "nontrivial",
+                                 extra={"parts_completed": {k: {"evaluated": v[0], "of": v[1], "complete": bool(v[2])} for k, v in done.items()},
+                                        "programs_yielded": sum(p.get("counters", {}).get("programs", 0) for p in ck.parts),
+                                        "inputs_rejected_with_errors": sum(p.get("counters", {}).get("rejected", 0) for p in ck.parts),
+                                        "probe_compiles_compared": sum(p.get("counters", {}).get("probe_compiles", 0) for p in ck.parts)}),
+              assumptions=ASSUMPTIONS)
+
+
+def selftest(ck):
+    """break the model / the environment (not the repo): the oracle must fire"""
+    exe = build(ck)["h_c02"]
+    bad = 0
+    for st, what in ((1, "baseline probe dump treated as different"), (2, "a leftover local is injected into the observed residual state"),
+                     (3, "an input that never returns (harness spins)")):
+        ck2 = vlib.Check("C02", "quick", 0, LEVEL)
+        ck2.enum(exe, ["--part=tok", "--tok-len=1", "--selftest=%d" % st], "selftest%d" % st, batch=10, timeout_ms=300, jobs=4)
+        want = {1: "C02:probe-differs:dump", 2: "C02:residual:compiler.current_number_of_locals", 3: "hang:element"}[st]
+        if want not in ck2.fails:
+            print("SELFTEST-FAILED C02 variant %d (%s): expected %s, got %s" % (st, what, want, sorted(ck2.fails)[:5])); bad = 1
+        else:
+            print("selftest %d ok (%s): %s" % (st, what, want))
+    return bad
